@@ -147,6 +147,10 @@ func createInst(c cfg, fs *fsim) (*inst, error) {
 		return nil, err
 	}
 	in.db = db
+	if fs != nil {
+		fs.metaDir = filepath.Join(in.dir, ffldb.VerifMetadataDirName)
+		fs.observe() // metadata state #0: the freshly initialised database
+	}
 	in.configure()
 	return in, nil
 }
